@@ -12,17 +12,17 @@ from checks import g6fmt, c22
 
 CLAIM = {
     "level": "other",
-    "text": "Coq theorem for the expression kernel: the tokens printed for the re-parsed output equal the tokens printed the first time "
-            "(the parenthesised tree is a fixed point of parse-after-print), tied to printer and parser by a differential run.  Whitespace, "
-            "line breaks, alignment and comment placement are not modelled: byte-level idempotence of format.Source is explored on the "
-            "corpus, on a comment inserted before every token of the small files (deterministic) and on seeded sources with layout "
-            "perturbations.",
+    "text": "Coq theorem for the expression kernel: for EVERY token list the parser model accepts (first pass), the second pass accepts the "
+            "first pass's output and prints exactly the same tokens (the parenthesised tree is a fixed point of parse-after-print); tied to "
+            "printer and parser by K-gen tables and a differential run.  Whitespace, line breaks, alignment and comment placement are not "
+            "modelled: byte-level idempotence of format.Source is explored on the corpus, on a comment inserted before every token of the "
+            "small files (deterministic) and on seeded sources with layout perturbations.",
     "note": "Kernel theorem + explored remainder (layout).  Trusted: Coq kernel, extraction, translator, harness.",
 }
 
 
 def run(ctx):
-    ctx.regen(["tokens"])
+    ctx.regen(["tokens", "printerexpr"])
     ctx.prove("C20")
     model = ctx.model("expr")
     impl = ctx.harness("c22")
